@@ -21,6 +21,11 @@ OBJ_OPTS = [{}, {"additional_properties": True}, {"aliaser": "prefix"}, {"all_re
 
 def jobs(prop, tier, seed):
     out = []
+    from vf.harness.deser_e2e import CALL_ARGS
+
+    for pid, (cs, _) in CALL_ARGS.items():  # per-call schema= on both sides
+        b = dict(depth=2, width=2, strlen=2, budget=1, distinct_sets=True)
+        out.append(dict(harness="C06", pool="data", pid=pid, opts={"call_schema": [list(c) for c in cs]}, bounds=b, budget_s=30))
     for pid in pools.ids("data", tier) + pools.random_ids(seed, 8 if tier == "quick" else 60):
         spec, _ = pools.get("data", pid)
         if any(s.k == "obj" and any(f.fall_back for f in s.a) for s in walk(spec)):
@@ -89,8 +94,15 @@ class Inst:
         self.prog = program_of(job)
         o = job.get("opts", {})
         self.kw = api_kwargs(job)
+        skw = schema_kwargs(o)
+        if o.get("call_schema"):
+            from apischema import schema as _schema
+
+            call = _schema(**{k: v for k, v in o["call_schema"]})
+            self.kw["schema"] = call
+            skw["schema"] = call
         self.method = deserialization_method(self.prog.tp, **self.kw)
-        self.schema = dict(deserialization_schema(self.prog.tp, **schema_kwargs(o)))
+        self.schema = dict(deserialization_schema(self.prog.tp, **skw))
         self.opts = ref_opts(job)
         self.bounds = bounds_of(job)
         self.VE = ValidationError
